@@ -25,6 +25,9 @@ pub fn run(ctx: &Ctx) -> i32 {
     let rep = run_sharded(ctx, "c12", n, move |rng, i, rep| {
         let p = &profiles[(i as usize) % profiles.len()];
         let mut g = wl::gen_grammar(rng, p);
+        if rng.chance(1, 2) {
+            wl::decorate_occurrences(&mut g, rng);
+        }
         if p.name == "start-named-like-S0" && g.rules.iter().all(|r| r.name != "S0") && g.rules.len() > 1 {
             // force a user non-terminal that is literally named like the augmented start symbol
             let old = g.rules[1].name.clone();
